@@ -322,4 +322,4 @@ def main(tier, seed, keep=False):
     mods = gen(tier, seed)
     for m in mods:
         m.functions = FUNCTIONS
-    return run_e1('C14', tier, seed, mods, RULE, BOUNDS, ASSUME, need_stubbing=True, keep=keep, harness_timeout=300 if tier == 'quick' else 900)
+    return run_e1('C14', tier, seed, mods, RULE, BOUNDS, ASSUME, need_stubbing=True, keep=keep, harness_timeout=600 if tier == 'quick' else 1200)
